@@ -41,6 +41,25 @@ class _Cexptrk_Potential_Function(object):
       raise Potential_Form_Exception(msg)
       
 
+  def _parse_expression(self):
+    if not self._expression:
+      try:
+        self._expression = cexprtk.Expression(self._potential_form_tuple.expression, self._local_symbol_table)
+      except cexprtk.ParseException as pe:
+        raise Potential_Form_Exception("mathematical expression couldn't be parsed {}".format(pe))
+
+  def check_expression(self):
+    """Parse this form's expression now (rather than when it is first evaluated) so that errors in formulas that no
+    potential uses are reported too. To be called once every function the formula may call has been registered."""
+    try:
+      self._parse_expression()
+    except Potential_Form_Exception as e:
+      raise Potential_Form_Exception("In potential-form '{label}({sig}) = {expression}': {msg}".format(
+        label = self._potential_form_tuple.signature.label,
+        sig = ",".join(self._potential_form_tuple.signature.parameter_names),
+        expression = self._potential_form_tuple.expression,
+        msg = e.args[0]))
+
   def __call__(self, *args):
     parameter_names = self._potential_form_tuple.signature.parameter_names
     if len(args) != len(parameter_names):
@@ -50,11 +69,7 @@ class _Cexptrk_Potential_Function(object):
       self._local_symbol_table.variables[pn] = v
 
     try:
-      if not self._expression:
-        try:
-          self._expression = cexprtk.Expression(self._potential_form_tuple.expression, self._local_symbol_table)
-        except cexprtk.ParseException as pe:
-          raise Potential_Form_Exception("mathematical expression couldn't be parsed {}".format(pe))
+      self._parse_expression()
       retval = self._expression()
       return retval
     except Potential_Form_Exception as e:
